@@ -1988,6 +1988,8 @@ def _norm_default(x):
     # Lazy import to improve `import odl` time
     import scipy.linalg
 
+    if x.data.size == 0:
+        return 0.0
     if _blas_is_applicable(x.data):
         nrm2 = scipy.linalg.blas.get_blas_funcs('nrm2', dtype=x.dtype)
         norm = partial(nrm2, n=native(x.size))
@@ -1998,6 +2000,8 @@ def _norm_default(x):
 
 def _pnorm_default(x, p):
     """Default p-norm implementation."""
+    if x.data.size == 0:
+        return 0.0
     return np.linalg.norm(x.data.ravel(), ord=p)
 
 
@@ -2009,6 +2013,8 @@ def _pnorm_diagweight(x, p, w):
     # This is faster than first applying the weights and then summing with
     # BLAS dot or nrm2
     xp = np.abs(x.data.ravel(order))
+    if xp.size == 0:
+        return 0.0
     if p == float('inf'):
         xp *= w.ravel(order)
         return np.max(xp)
